@@ -51,29 +51,29 @@ mod sp_dual__ren;
 mod longest_capped__par;
 mod set_reach__topar;
 mod set_reach__init;
-mod cp__pari;
-mod lex_lat__pari;
-mod lat_multi_improve__par;
-mod count_paths__par;
-mod count_paths__src1;
-mod neg_basic__pari;
-mod neg_basic__src2;
-mod neg_basic__permpar;
-mod agg_depth__pari;
-mod agg_user__ser;
-mod agg_bound_mix__ser;
-mod agg_empty_rel__ser;
-mod agg_const_args__exp;
-mod disj__mrt;
-mod disj__srcpar;
-mod disj_nested__par;
-mod pat_args__exppar;
-mod multi_head_disj__pari;
-mod mac_basic__ser;
-mod mac_basic__src0;
-mod mac_basic__exppar;
-mod mac_nested__pari;
-mod mac_disj__ser;
+mod cp__ser;
+mod lex_lat__ser;
+mod lat_two_keys__pari;
+mod lat_val_bound__pari;
+mod count_paths__gen;
+mod neg_basic__ser;
+mod neg_basic__src0;
+mod neg_basic__perm2;
+mod agg_depth__ser;
+mod agg_lattice__to;
+mod neg_rec_after__exp;
+mod agg_empty__to;
+mod agg_const_args__par;
+mod disj__topar;
+mod disj__init;
+mod disj__exppar;
+mod pat_args__pari;
+mod multi_head_disj__ser;
+mod neg_in_disj__exp;
+mod mac_basic__mrt;
+mod mac_basic__srcpar;
+mod mac_nested__ser;
+mod mac_gensym_disj__exp;
 
 fn lookup(name: &str) -> fn() -> Box<dyn Driven> {
    match name {
@@ -120,29 +120,29 @@ fn lookup(name: &str) -> fn() -> Box<dyn Driven> {
       "longest_capped__par" => longest_capped__par::make,
       "set_reach__topar" => set_reach__topar::make,
       "set_reach__init" => set_reach__init::make,
-      "cp__pari" => cp__pari::make,
-      "lex_lat__pari" => lex_lat__pari::make,
-      "lat_multi_improve__par" => lat_multi_improve__par::make,
-      "count_paths__par" => count_paths__par::make,
-      "count_paths__src1" => count_paths__src1::make,
-      "neg_basic__pari" => neg_basic__pari::make,
-      "neg_basic__src2" => neg_basic__src2::make,
-      "neg_basic__permpar" => neg_basic__permpar::make,
-      "agg_depth__pari" => agg_depth__pari::make,
-      "agg_user__ser" => agg_user__ser::make,
-      "agg_bound_mix__ser" => agg_bound_mix__ser::make,
-      "agg_empty_rel__ser" => agg_empty_rel__ser::make,
-      "agg_const_args__exp" => agg_const_args__exp::make,
-      "disj__mrt" => disj__mrt::make,
-      "disj__srcpar" => disj__srcpar::make,
-      "disj_nested__par" => disj_nested__par::make,
-      "pat_args__exppar" => pat_args__exppar::make,
-      "multi_head_disj__pari" => multi_head_disj__pari::make,
-      "mac_basic__ser" => mac_basic__ser::make,
-      "mac_basic__src0" => mac_basic__src0::make,
-      "mac_basic__exppar" => mac_basic__exppar::make,
-      "mac_nested__pari" => mac_nested__pari::make,
-      "mac_disj__ser" => mac_disj__ser::make,
+      "cp__ser" => cp__ser::make,
+      "lex_lat__ser" => lex_lat__ser::make,
+      "lat_two_keys__pari" => lat_two_keys__pari::make,
+      "lat_val_bound__pari" => lat_val_bound__pari::make,
+      "count_paths__gen" => count_paths__gen::make,
+      "neg_basic__ser" => neg_basic__ser::make,
+      "neg_basic__src0" => neg_basic__src0::make,
+      "neg_basic__perm2" => neg_basic__perm2::make,
+      "agg_depth__ser" => agg_depth__ser::make,
+      "agg_lattice__to" => agg_lattice__to::make,
+      "neg_rec_after__exp" => neg_rec_after__exp::make,
+      "agg_empty__to" => agg_empty__to::make,
+      "agg_const_args__par" => agg_const_args__par::make,
+      "disj__topar" => disj__topar::make,
+      "disj__init" => disj__init::make,
+      "disj__exppar" => disj__exppar::make,
+      "pat_args__pari" => pat_args__pari::make,
+      "multi_head_disj__ser" => multi_head_disj__ser::make,
+      "neg_in_disj__exp" => neg_in_disj__exp::make,
+      "mac_basic__mrt" => mac_basic__mrt::make,
+      "mac_basic__srcpar" => mac_basic__srcpar::make,
+      "mac_nested__ser" => mac_nested__ser::make,
+      "mac_gensym_disj__exp" => mac_gensym_disj__exp::make,
       _ => panic!("no such program variant in this shard: {}", name),
    }
 }
